@@ -25,3 +25,10 @@ Proof. vm_compute. reflexivity. Qed.
 
 Lemma main_step_checked : step_checker main_prog = true.
 Proof. vm_compute. reflexivity. Qed.
+
+Lemma main_records_checked : records_checker main_prog = true.
+Proof. vm_compute. reflexivity. Qed.
+
+Definition main_split := match split_out main_body with Some x => x | None => (Done, Done, Done, Done) end.
+Lemma main_split_found : split_out (p_body main_prog) = Some main_split.
+Proof. vm_compute. reflexivity. Qed.
